@@ -77,8 +77,9 @@ func NewRunner(
 // and cancel them.
 func (runner *Runner) Stop() {
 	jobrunner.Stop()
-	verifhook.Access(runner.raffle.runningJobs, "raffle.runningJobs", false)
-	for _, v := range runner.raffle.runningJobs {
+	running := runner.raffle.getRunningJobs()
+	verifhook.Access(running, "raffle.runningJobs", false)
+	for _, v := range running {
 		v.cancel()
 	}
 }
